@@ -22,6 +22,38 @@ pub trait Adapter {
     }
 }
 
+/// Finds the end of the program message at the start of `input` without parsing
+/// it: the first newline that is not part of a quoted string or of a block of
+/// arbitrary data. Returns the input behind that newline, or `None` if the
+/// message is not complete yet.
+///
+/// This is used to discard a faulty message, so it has to find the same
+/// terminator the parser would have found for a valid one.
+fn skip_message(mut input: &[u8]) -> Option<&[u8]> {
+    loop {
+        input = match *input.first()? {
+            b'\n' => return Some(&input[1..]),
+            quote @ (b'\'' | b'"') => {
+                let length = input[1..].iter().position(|b| *b == quote)?;
+                &input[length + 2..]
+            }
+            b'#' => match input.get(1) {
+                // `#<n><length>` is followed by <length> bytes of arbitrary data.
+                Some(digits @ b'1'..=b'9') => {
+                    let digits = (digits - b'0') as usize;
+                    let length = input.get(2..2 + digits)?;
+                    match core::str::from_utf8(length).ok().and_then(|l| l.parse::<usize>().ok()) {
+                        Some(length) => input.get(2 + digits + length..)?,
+                        None => &input[1..],
+                    }
+                }
+                _ => &input[1..],
+            },
+            _ => &input[1..],
+        };
+    }
+}
+
 /// Checks whether `input` holds a complete program message, i.e. whether the
 /// parser reaches the message terminator without running out of data. A newline
 /// inside a string or a block of arbitrary data does not end the message.
@@ -31,8 +63,9 @@ fn is_complete_message(root: &'static tree::Node, mut input: &[u8]) -> bool {
     while !input.is_empty() {
         match parser::parse(root, header, input) {
             Err(ParseError::Incomplete) => return false,
-            // A faulty message is reported and discarded by `run`.
-            Err(_) | Ok((_, None)) => return true,
+            // A faulty message is reported and discarded by `run`, up to its terminator.
+            Err(_) => return skip_message(input).is_some(),
+            Ok((_, None)) => return true,
             Ok((remaining, Some(call))) => {
                 if call.terminated {
                     return true;
@@ -122,10 +155,11 @@ pub trait Interface: ErrorHandler {
                 defmt::trace!("Parse error");
                 self.handle_error(error.into());
 
-                // Discard the rest of the faulty message and continue with the next one.
-                match input.iter().position(|b| *b == b'\n') {
-                    Some(position) => {
-                        input = &input[position + 1..];
+                // Discard the rest of the faulty message and continue with the next one. A
+                // newline inside a string or a block is not the end of the message.
+                match skip_message(input) {
+                    Some(remaining) => {
+                        input = remaining;
                         header = self.root_node();
                         continue;
                     }
